@@ -37,9 +37,15 @@ def ncf2wind(ncffile, outpath, tflag='TFLAG'):
         d = np.array(d, ndmin=1).astype('>i')
         d = (d % (d // 100000 * 100000)).astype('>i')
         lstag = ncffile.LSTAGGER
-        buf = np.array([12], dtype='>i').tobytes()
-        outfile.write(buf + t.tobytes() + d.tobytes() +
-                      lstag.tobytes() + buf)
+        if hasattr(lstag, 'tobytes') and not np.isnan(lstag):
+            buf = np.array([12], dtype='>i').tobytes()
+            outfile.write(buf + t.tobytes() + d.tobytes() +
+                          lstag.tobytes() + buf)
+        else:
+            # files without the staggering flag have an 8-byte time header
+            # (the reader sets LSTAGGER to nan for them)
+            buf = np.array([8], dtype='>i').tobytes()
+            outfile.write(buf + t.tobytes() + d.tobytes() + buf)
         for zi in range(nzcl):
             for varkey in varkeys:
                 vals = ncffile.variables[varkey][di, zi].astype('>f')
